@@ -7,6 +7,7 @@ import Pdlv.Inherit
 import Pdlv.Seg
 import Pdlv.Static
 import Pdlv.Py
+import Pdlv.Cxx
 import Pdlv.Analyzer
 import Pdlv.ToJson
 import Pdlv.Syntax
@@ -331,6 +332,16 @@ def handle (st : State) (req : Json) : Except String (State × Json) := do
           match hexToBytes (← J.str c "hex").toList with
           | none => throw "bad hex"
           | some bs => pure (decOut ((Py.decodeFull cfg b bs).bind fun v => .ok (v, [])))
+        | "cxxdec" =>
+          -- the model of `T::Parse(span, &out)` the C++ back end emits for structs (`Pdlv.Cxx`)
+          match hexToBytes (← J.str c "hex").toList with
+          | none => throw "bad hex"
+          | some bs => pure (decOut (Cxx.decBody cfg b bs))
+        | "cxxview" =>
+          -- the model of `TView::Create(slice)`, `IsValid()` and the getters
+          match hexToBytes (← J.str c "hex").toList with
+          | none => throw "bad hex"
+          | some bs => pure (decOut ((Cxx.viewDecode cfg b bs).bind fun v => .ok (v, [])))
         | "pyenc" =>
           -- the model of the serializer the Python back end emits
           let v ← valueOfJson (← c.getObjVal? "v")
